@@ -10,7 +10,13 @@ package c01
 //	       keys and another member order is held under gid+1)
 //	evgid  DispatchedGroupId of the event (= gid, or a group nobody is in)
 //	last   LastRandomness / LastSystemRandomness / Randomness;  rid  RequestId / QueryId;  useed  UserSeed
-//	dup    how many times the event is delivered to every node
+//	dup    how many times the event is delivered to every node; a suffix c (e.g. 1c): a LogStartCommitReveal
+//	       event follows directly behind every delivery. onchainLoop hands handleCR the very *big.Int of the
+//	       request event it also handed to the concurrently started handleQuery (randSeed): a second handler
+//	       works on the same event-derived objects. The schedule is made deterministic without sleeping: the
+//	       node's logger double holds handleQuery at its first log record (before it reads its numbers) until
+//	       handleCR has passed its first statements (it then asks the chain double for the current block).
+//	       The report must be the function of the event's fields AS THE CHAIN DOUBLE EMITTED THEM.
 
 import (
 	"bytes"
@@ -38,6 +44,42 @@ type evCase struct {
 	k          *kase
 	gid, evgid *big.Int
 	dup        int
+	cr         bool // a commit-reveal event right behind the request event
+}
+
+// crChain: the chain double plus what handleCR needs. CurrentBlock is handleCR's first call after it
+// has drawn its secret from randSeed: it opens the gate of the node's logger.
+type crChain struct {
+	*doubles.Chain
+	gate *gate
+}
+
+type gate struct {
+	once sync.Once
+	ch   chan struct{}
+}
+
+func (g *gate) open() { g.once.Do(func() { close(g.ch) }) }
+
+func (c crChain) CurrentBlock() (uint64, error)   { c.gate.open(); return 100, nil }
+func (c crChain) Commit(*big.Int, [32]byte) error { return nil }
+func (c crChain) Reveal(*big.Int, *big.Int) error { return nil }
+
+// gateLogger holds the caller of Event("HandleQuery") - the first thing handleQuery does after building
+// its context - until the gate opens (bounded: 3 s).
+type gateLogger struct {
+	*doubles.Logger
+	gate *gate
+}
+
+func (l gateLogger) Event(e string, f map[string]interface{}) {
+	if e == "HandleQuery" {
+		select {
+		case <-l.gate.ch:
+		case <-time.After(3 * time.Second):
+		}
+	}
+	l.Logger.Event(e, f)
 }
 
 func parseEv(line string) *evCase {
@@ -53,7 +95,8 @@ func parseEv(line string) *evCase {
 	if len(k.ids) != k.n {
 		panic("bad ev case line: ids")
 	}
-	e := &evCase{k: k, gid: h.BigDec(w[5]), evgid: h.BigDec(w[6]), dup: h.Atoi(w[13])}
+	e := &evCase{k: k, gid: h.BigDec(w[5]), evgid: h.BigDec(w[6]), cr: strings.HasSuffix(w[13], "c")}
+	e.dup = h.Atoi(strings.TrimSuffix(w[13], "c"))
 	k.last, k.rid, k.seed2 = h.BigDec(w[7]), h.BigDec(w[8]), h.BigDec(w[9])
 	k.doc, k.sel, k.parsed = h.UnHex(w[10]), string(h.UnHex(w[11])), w[12]
 	return e
@@ -69,6 +112,9 @@ func runEv(e *evCase) (impl, oracle, class string) {
 	w.contents = [][]byte{c0}
 	member := e.evgid.Cmp(e.gid) == 0
 	class = fmt.Sprintf("event %s n=%d member=%v dup=%d", k.kind, k.n, member, e.dup)
+	if e.cr {
+		class += " +commit-reveal event behind it"
+	}
 	url := ""
 	if k.kind == "url" {
 		url = docURL(k.doc)
@@ -93,7 +139,12 @@ func runEv(e *evCase) (impl, oracle, class string) {
 			e.gid.Text(16): {IDs: g.ids, Pub: g.pub, Sec: g.shares[i]},
 			new(big.Int).Add(e.gid, big.NewInt(1)).Text(16): {IDs: decoyIDs, Pub: decoy.pub, Sec: decoy.shares[k.n-1-i]},
 		}}
-		nd.d = dosnode.VerifNewNode(g.ids[i], nd.p, nd.chain, table, 21, nd.lg)
+		if e.cr {
+			gt := &gate{ch: make(chan struct{})}
+			nd.d = dosnode.VerifNewNode(g.ids[i], nd.p, crChain{nd.chain, gt}, table, 21, gateLogger{nd.lg, gt})
+		} else {
+			nd.d = dosnode.VerifNewNode(g.ids[i], nd.p, nd.chain, table, 21, nd.lg)
+		}
 		w.nodes = append(w.nodes, nd)
 	}
 	for _, nd := range w.nodes {
@@ -146,6 +197,13 @@ func runEv(e *evCase) (impl, oracle, class string) {
 		for _, nd := range w.nodes {
 			if !send(nd, mkEvent()) {
 				return "stuck event", "stuck-onchain-loop: onchainLoop did not take a chain event for 15 s", class
+			}
+			if e.cr {
+				cr := &onchain.LogStartCommitReveal{Cid: big.NewInt(int64(7 + rep)), StartBlock: big.NewInt(100),
+					CommitDuration: big.NewInt(1), RevealDuration: big.NewInt(1), RevealThreshold: big.NewInt(1)}
+				if !send(nd, cr) {
+					return "stuck event", "stuck-onchain-loop: onchainLoop did not take a chain event for 15 s", class
+				}
 			}
 		}
 	}
@@ -268,6 +326,7 @@ func genEv(tier string, rng *h.Rng, emit func(string)) {
 				}
 				gid := new(big.Int).SetBytes(rng.Bytes(1 + rng.Intn(32)))
 				emit(line(b, gid, gid, 1))
+				emit(line(b, gid, gid, 1) + "c") // the same event with a commit-reveal event right behind it
 				if r == 0 {
 					emit(line(b, gid, new(big.Int).Add(gid, big.NewInt(7)), 1)) // a group nobody is in
 					if n <= 4 {
